@@ -237,3 +237,135 @@ Example C01_ok_example :
   ok (c [Some (dz 0 3); Some (dz 2 0)] (Fin 2)) = true
   /\ ok (c [Some (dz 0 3); Some (di 1)] PInf) = false.
 Proof. vm_compute. split; reflexivity. Qed.
+
+(** ---- non-vacuity of the hypotheses (audit) ---- *)
+(** a budget-form instance (n_samples 4, batch_size 3, no threshold) that has consumed one batch, then
+    consumes two more: ties, an infinite discrepancy, 9 accepted draws for 4 rows *)
+Definition c01au_b1 : list draw := [dz 3 0; di 1; dz 1 2].
+Definition c01au_b23 : list (list draw) := [[dz 1 3; dz 3 4; dz 2 5]; [di 6; dz 1 7; dz 0 8]].
+Definition c01au_s0 : rstate := rinit 4 3 None 3.
+Definition c01au_s1 : rstate := consume c01au_s0 [c01au_b1].
+
+Example C01_audit_s1_invariant : RInv (r_n c01au_s1) (r_b c01au_s1) (bufof c01au_s1) c01au_b1 /\ r_nbatches c01au_s1 = 1.
+Proof.
+  assert (H0 : RInv (r_n c01au_s0) (r_b c01au_s0) (bufof c01au_s0) []) by (apply C01_invariant_initially).
+  assert (HF : Forall (fun batch => length batch <= r_b c01au_s0) [c01au_b1]) by (repeat constructor).
+  destruct (C01_invariant_all_histories [c01au_b1] c01au_s0 [] H0 HF) as [H [Hn [Hb [_ Hk]]]].
+  fold c01au_s1 in H, Hn, Hb, Hk. rewrite <- Hn, <- Hb in H. split; [exact H | exact Hk].
+Qed.
+
+Example C01_invariant_all_histories_nonvacuous :
+  RInv (r_n c01au_s1) (r_b c01au_s1) (bufof c01au_s1) c01au_b1
+  /\ Forall (fun batch => length batch <= r_b c01au_s1) c01au_b23
+  /\ bufof c01au_s1 <> repeat None 7 /\ c01au_b1 <> []
+  /\ RInv 4 3 (bufof (consume c01au_s1 c01au_b23)) (c01au_b1 ++ concat c01au_b23)
+  /\ r_nbatches (consume c01au_s1 c01au_b23) = 3.
+Proof.
+  destruct C01_audit_s1_invariant as [H1 Hk].
+  assert (HF : Forall (fun batch => length batch <= r_b c01au_s1) c01au_b23) by (repeat constructor).
+  split; [exact H1|]. split; [exact HF|]. split; [vm_compute; discriminate|]. split; [discriminate|].
+  destruct (C01_invariant_all_histories c01au_b23 c01au_s1 c01au_b1 H1 HF) as [H [_ [_ [_ Hk']]]].
+  split; [exact H | rewrite Hk', Hk; reflexivity].
+Qed.
+
+Example C01_returns_best_draws_nonvacuous :
+  let buf := bufof (consume c01au_s1 c01au_b23) in
+  let acc := c01au_b1 ++ concat c01au_b23 in
+  RInv 4 3 buf acc /\ 4 <= length acc
+  /\ firstn 4 buf = [Some (dz 0 8); Some (dz 1 2); Some (dz 1 3); Some (dz 1 7)]
+  /\ ascending (firstn 4 buf) = true /\ (forall s, In s (firstn 4 buf) -> s <> None).
+Proof.
+  intros buf acc.
+  destruct C01_invariant_all_histories_nonvacuous as [_ [_ [_ [_ [H _]]]]].
+  assert (Hl : 4 <= length acc) by (vm_compute; repeat constructor).
+  split; [exact H|]. split; [exact Hl|]. split; [vm_compute; reflexivity|].
+  destruct (C01_returns_best_draws 4 3 buf acc H) as [Ha [_ Hn]].
+  split; [exact Ha | exact (Hn Hl)].
+Qed.
+
+(** a threshold-form instance (n_samples 2, batch_size 3, threshold 1): 4 of the 9 draws are accepted *)
+Example C01_within_threshold_nonvacuous :
+  let s := consume (rinit 2 3 (Some (Fin 1)) 1) (c01au_b1 :: c01au_b23) in
+  let consumed := concat (c01au_b1 :: c01au_b23) in
+  let acc := filter (accepts (Some (Fin 1))) consumed in
+  RInv 2 3 (bufof s) acc /\ acc = [dz 1 2; dz 1 3; dz 1 7; dz 0 8]
+  /\ In (Some (dz 1 2)) (firstn 2 (bufof s)) /\ dle (d_disc (dz 1 2)) (Fin 1) = true.
+Proof.
+  intros s consumed acc.
+  assert (H0 : RInv 2 3 (bufof (rinit 2 3 (Some (Fin 1)) 1)) []) by (apply C01_invariant_initially).
+  assert (HF : Forall (fun batch => length batch <= 3) (c01au_b1 :: c01au_b23)) by (repeat constructor).
+  destruct (C01_invariant_all_histories (c01au_b1 :: c01au_b23) (rinit 2 3 (Some (Fin 1)) 1) [] H0 HF) as [H _].
+  change (RInv 2 3 (bufof s) acc) in H.
+  assert (Hin : In (Some (dz 1 2)) (firstn 2 (bufof s))) by (vm_compute; tauto).
+  split; [exact H|]. split; [vm_compute; reflexivity|]. split; [exact Hin|].
+  exact (C01_within_threshold 2 3 (bufof s) acc (Fin 1) consumed H eq_refl (dz 1 2) Hin).
+Qed.
+
+(** budget form, one batch already consumed of an objective of three *)
+Example C01_budget_batches_exact_nonvacuous :
+  r_thr c01au_s1 = None /\ r_nbatches c01au_s1 <= r_objective c01au_s1 /\ r_objective c01au_s1 - r_nbatches c01au_s1 <= 10
+  /\ r_objective c01au_s1 - r_nbatches c01au_s1 = 2
+  /\ exists s', seq_run rstate (list draw) unit r_objective r_nbatches (fun _ _ => tt) (batch_of (c01au_b1 :: c01au_b23)) rupdate 10 c01au_s1 1
+                = Some (s', 3) /\ r_nbatches s' = 3.
+Proof.
+  assert (H1 : r_thr c01au_s1 = None) by reflexivity.
+  assert (H2 : r_nbatches c01au_s1 <= r_objective c01au_s1) by (vm_compute; repeat constructor).
+  assert (H3 : r_objective c01au_s1 - r_nbatches c01au_s1 <= 10) by (vm_compute; repeat constructor).
+  split; [exact H1|]. split; [exact H2|]. split; [exact H3|]. split; [reflexivity|].
+  destruct (C01_budget_batches_exact (c01au_b1 :: c01au_b23) 10 c01au_s1 1 H1 H2 H3) as [s' [A [B _]]].
+  exists s'. split; [exact A | exact B].
+Qed.
+
+(** the estimator: both branches, on the finite domain and far outside it *)
+Example C01_estimator_nonvacuous :
+  (1 <= 5 <= 12 /\ 1 <= 3 <= 6 /\ 1 <= 4 <= 16 /\ 1 <= 6 <= 5 + 3 /\ stops 5 3 4 6 = true /\ 5 <= 6)
+  /\ (1 <= 1000 /\ 1 <= 100 /\ 1 <= 37 /\ 1 <= 1050 <= 1000 + 100
+      /\ (Z.of_nat 1000 <= 2 ^ 40)%Z /\ (Z.of_nat (37 * 100) <= 2 ^ 40)%Z
+      /\ stops 1000 100 37 1050 = true /\ 1000 <= 1050
+      /\ estimate_batches 1000 100 (37 * 100) 1050 7 <= 38).
+Proof.
+  assert (Hs0 : stops 5 3 4 6 = true) by (vm_compute; reflexivity).
+  assert (Hs : stops 1000 100 37 1050 = true) by (vm_compute; reflexivity).
+  assert (He : estimate_batches 1000 100 (37 * 100) 1050 7 <= 38).
+  { destruct (C01_estimator_safe_unbounded 1000 100 37 1050 7) as [_ H]; [lia..|]. apply H. lia. }
+  split.
+  - split; [lia|]. split; [lia|]. split; [lia|]. split; [lia|]. split; [exact Hs0 | lia].
+  - split; [lia|]. split; [lia|]. split; [lia|]. split; [lia|]. split; [lia|]. split; [lia|].
+    split; [exact Hs|]. split; [lia | exact He].
+Qed.
+
+(** a two-run history on one instance (batch_size 2) with the results the model returns: [hok] holds *)
+Definition c01au_t : list (list draw) := [[dz 2 0; di 1]; [di 2; dz 0 3]; [di 4; di 5]; [dz 0 6; dz 1 7]].
+Definition c01au_h : hcase :=
+  {| h_b := 2;
+     h_runs := [ {| c_n := 2; c_b := 2; c_form := ByNsim 4; c_table := firstn 2 c01au_t;
+                    c_rows := [Some (dz 0 3); Some (dz 2 0)]; c_threshold := Fin 2; c_n_sim := 4; c_n_batches := 2 |};
+                 {| c_n := 2; c_b := 2; c_form := ByThreshold (Fin 0) 1; c_table := c01au_t;
+                    c_rows := [Some (dz 0 3); Some (dz 0 6)]; c_threshold := Fin 0; c_n_sim := 8; c_n_batches := 4 |} ] |}.
+Example C01_history_ok_each_run_nonvacuous :
+  hok c01au_h = true /\ hagree c01au_h = true
+  /\ Forall (fun c => ok c = true /\ c_b c = h_b c01au_h) (h_runs c01au_h).
+Proof.
+  assert (H : hok c01au_h = true) by (vm_compute; reflexivity).
+  split; [exact H|]. split; [vm_compute; reflexivity|]. exact (C01_history_ok_each_run _ H).
+Qed.
+
+Example C01_every_run_of_every_history_best_nonvacuous :
+  let h := [mk 2 2 (ByNsim 4) c01au_t; mk 4 2 (ByNsim 5) c01au_t; mk 2 2 (ByThreshold (Fin 0) 1) c01au_t] in
+  Forall (fun c => Forall (fun batch => length batch <= c_b c) (c_table c)) h
+  /\ exists r3, nth_error (history_results None h) 2 = Some (Some r3) /\ 0 < res_n_batches r3
+       /\ returns_best 2 (Some (Fin 0)) (concat (firstn (res_n_batches r3) c01au_t)) (res_rows r3)
+       /\ res_n_sim r3 = 8.
+Proof.
+  intros h.
+  assert (HF : Forall (fun c => Forall (fun batch => length batch <= c_b c) (c_table c)) h)
+    by (repeat constructor).
+  split; [exact HF|].
+  pose proof (C01_every_run_of_every_history_best h None HF) as H2.
+  destruct (history_results None h) as [|r1 [|r2 [|r3 [|]]]] eqn:E; try (vm_compute in E; discriminate).
+  inversion H2 as [|? ? ? ? _ H2']; subst. inversion H2' as [|? ? ? ? _ H2'']; subst.
+  inversion H2'' as [|? ? ? ? H3 _]; subst.
+  vm_compute in E. inversion E; subst. eexists. split; [reflexivity|].
+  assert (Hpos : 0 < 4) by lia.
+  destruct (H3 _ eq_refl Hpos) as [Hb Hs]. split; [exact Hpos|]. split; [exact Hb | exact Hs].
+Qed.
